@@ -183,6 +183,11 @@ func (p *NamePacket) UnmarshalPacketBody(buf *Buffer) (err error) {
 		return buf.Err
 	}
 
+	// Each entry holds two strings and an attribute flags word: at least 12 bytes.
+	if count < 0 || count > buf.Len()/12 {
+		return ErrShortPacket
+	}
+
 	*p = NamePacket{
 		Entries: make([]*NameEntry, 0, count),
 	}
